@@ -95,6 +95,7 @@ type c11Op struct {
 	Sets    []c11BitOp `json:"sets,omitempty"`
 	Gets    []int      `json:"gets,omitempty"`
 	Len     int        `json:"len,omitempty"`
+	Revokes []c11Status `json:"revokes,omitempty"` // mix: entries to revoke concurrently (list + idx)
 }
 
 // ---------- fast signer: HMAC over the canonical JSON without proof, key derived from the key id
@@ -450,6 +451,40 @@ func c11SetBits(bs bitstring) string {
 	return "[" + strings.Join(l, ",") + "]"
 }
 
+func c11Subset(a, b string) bool {
+	in := map[string]bool{}
+	for _, x := range strings.Split(strings.Trim(b, "[]"), ",") {
+		in[x] = true
+	}
+	for _, x := range strings.Split(strings.Trim(a, "[]"), ",") {
+		if x != "" && !in[x] {
+			return false
+		}
+	}
+	return true
+}
+
+// servedBits: the set bits of the list the node serves right now ("none" when it does not serve it)
+func (w *c11World) servedBits(node int, l c11URL) string {
+	id, err := did.ParseDID(l.Issuer)
+	if err != nil {
+		return "none"
+	}
+	cred, err := w.nodes[node].cs.Credential(context.Background(), *id, l.Page)
+	if err != nil {
+		return "none"
+	}
+	var subj []StatusList2021CredentialSubject
+	if err := cred.UnmarshalCredentialSubject(&subj); err != nil || len(subj) != 1 {
+		return "malformed"
+	}
+	bs, err := expand(subj[0].EncodedList)
+	if err != nil {
+		return "malformed"
+	}
+	return c11SetBits(bs)
+}
+
 func c11Minutes(d time.Duration) int64 {
 	s := d.Seconds()
 	if s >= 0 {
@@ -577,6 +612,85 @@ func (w *c11World) exec(op c11Op) (line string) {
 		wg.Wait()
 		sort.Strings(res)
 		return "par " + strings.Join(res, " ; ")
+	case "mix":
+		// real goroutines: Entry calls, Revoke calls and Credential calls of the touched lists, all at once
+		type served struct {
+			name string
+			bits string
+			ok   bool
+		}
+		lists := map[string]c11URL{}
+		for _, rv := range op.Revokes {
+			lists[w.render(rv.List)] = rv.List
+		}
+		before := map[string]string{}
+		for u, l := range lists {
+			before[u] = w.servedBits(op.Node, l)
+		}
+		entries := make([]string, len(op.Issuers))
+		revs := make([]string, len(op.Revokes))
+		var mids []served
+		var wg sync.WaitGroup
+		for i, is := range op.Issuers {
+			wg.Add(1)
+			go func(i int, is string) { defer wg.Done(); entries[i] = w.entryLine(op.Node, is, StatusPurposeRevocation) }(i, is)
+		}
+		for i, rv := range op.Revokes {
+			wg.Add(1)
+			u := w.render(rv.List) // (not in the goroutine: render fills a map)
+			go func(i int, rv c11Status, u string) {
+				defer wg.Done()
+				e := StatusList2021Entry{ID: "x", Type: StatusList2021EntryType, StatusPurpose: StatusPurposeRevocation, StatusListIndex: rv.Idx, StatusListCredential: u}
+				err := w.nodes[op.Node].cs.Revoke(ctx, ssi.MustParseURI("did:web:example.com#"+rv.Idx), e)
+				w.mu.Lock()
+				revs[i] = w.name(u) + "#" + rv.Idx + ":" + c11ErrClass(err)
+				w.mu.Unlock()
+			}(i, rv, u)
+		}
+		for u, l := range lists {
+			wg.Add(1)
+			go func(u string, l c11URL) {
+				defer wg.Done()
+				id, _ := did.ParseDID(l.Issuer)
+				cred, err := w.nodes[op.Node].cs.Credential(ctx, *id, l.Page)
+				if err != nil {
+					return
+				}
+				var subj []StatusList2021CredentialSubject
+				_ = cred.UnmarshalCredentialSubject(&subj)
+				ok := len(subj) == 1 && c11VerifySignature(*cred, nil) == nil
+				bits := ""
+				if ok {
+					if bs, err := expand(subj[0].EncodedList); err == nil {
+						bits = c11SetBits(bs)
+					}
+				}
+				w.mu.Lock()
+				mids = append(mids, served{name: u, bits: bits, ok: ok})
+				w.mu.Unlock()
+			}(u, l)
+		}
+		wg.Wait()
+		// every list served in the middle is validly signed and lies between the list before and the list after
+		mid := "ok"
+		var after []string
+		names := make([]string, 0, len(lists))
+		for u := range lists {
+			names = append(names, u)
+		}
+		sort.Strings(names)
+		for _, u := range names {
+			a := w.servedBits(op.Node, lists[u])
+			after = append(after, w.name(u)+"="+a)
+			for _, m := range mids {
+				if m.name == u && (!m.ok || !c11Subset(before[u], m.bits) || !c11Subset(m.bits, a)) {
+					mid = "BAD(" + before[u] + "→" + m.bits + "→" + a + ")"
+				}
+			}
+		}
+		sort.Strings(entries)
+		sort.Strings(revs)
+		return fmt.Sprintf("mix entries=[%s] revokes=[%s] after=[%s] mid=%s", strings.Join(entries, " ; "), strings.Join(revs, " "), strings.Join(after, " "), mid)
 	case "bump":
 		u := w.render(*op.List)
 		tx := w.nodes[op.Node].cs.db.Model(&credentialIssuerRecord{}).Where("subject_id = ? AND last_issued_index <= ?", u, op.To).
@@ -677,11 +791,20 @@ type c11Gen struct {
 }
 
 var c11EntryRe = regexp.MustCompile(`n(\d+)/(\S+)/(\d+) (\d+) wf=`)
+var c11MixRevRe = regexp.MustCompile(`n(\d+)/([^ /]+)/(\d+)#(\d+):ok`)
 
 func (g *c11Gen) observe(op c11Op, line string) {
 	switch op.Op {
 	case "reset":
 		g.entries, g.revoked, g.hosted, g.nticks = nil, nil, nil, 0
+	case "mix":
+		for _, m := range c11MixRevRe.FindAllStringSubmatch(line, -1) {
+			n, _ := strconv.Atoi(m[1])
+			p, _ := strconv.Atoi(m[3])
+			i, _ := strconv.Atoi(m[4])
+			g.revoked = append(g.revoked, c11Entry{list: c11URL{Node: n, Issuer: m[2], Page: p}, idx: i})
+		}
+		fallthrough
 	case "entry", "race", "par":
 		for _, m := range c11EntryRe.FindAllStringSubmatch(line, -1) {
 			n, _ := strconv.Atoi(m[1])
@@ -818,13 +941,33 @@ func (g *c11Gen) next() c11Op {
 		return c11Op{Op: "entry", Node: node, Issuer: is, Purpose: p}
 	case k < 25:
 		return c11Op{Op: "race", Node: node, Issuer: g.pick(c11Issuers[:3])}
-	case k < 29:
+	case k < 27:
 		n := 2 + r.Intn(5)
 		var l []string
 		for j := 0; j < n; j++ {
 			l = append(l, g.pick(c11Issuers[:3]))
 		}
 		return c11Op{Op: "par", Node: node, Issuers: l}
+	case k < 29:
+		// concurrent Entry / Revoke / Credential on one node; revocations of entries that were really handed out there
+		var mine []c11Entry
+		for _, e := range g.entries {
+			if e.list.Node == node {
+				mine = append(mine, e)
+			}
+		}
+		if len(mine) == 0 {
+			return c11Op{Op: "entry", Node: node, Issuer: g.pick(c11Issuers[:3]), Purpose: StatusPurposeRevocation}
+		}
+		op := c11Op{Op: "mix", Node: node}
+		for j := r.Intn(4); j > 0; j-- {
+			op.Issuers = append(op.Issuers, g.pick(c11Issuers[:3]))
+		}
+		for j := 1 + r.Intn(4); j > 0; j-- {
+			e := mine[r.Intn(len(mine))]
+			op.Revokes = append(op.Revokes, c11Status{List: e.list, Idx: strconv.Itoa(e.idx)})
+		}
+		return op
 	case k < 36:
 		u := g.someList(node)
 		to := maxBitstringIndex - r.Intn(3)
